@@ -1413,6 +1413,12 @@ done:
   return rv;
 }
 
+void ares_query_unlink(ares_query_t *query)
+{
+  ares_query_remove_from_conn(query);
+  ares_htable_szvp_remove(query->channel->queries_by_qid, query->qid);
+}
+
 static void ares_detach_query(ares_query_t *query)
 {
   /* Remove the query from all the lists in which it is linked */
